@@ -6,6 +6,9 @@ import (
 	"encoding/hex"
 	"encoding/json"
 	"fmt"
+	warptypes "github.com/bcp-innovations/hyperlane-cosmos/x/warp/types"
+	"github.com/cosmos/gogoproto/proto"
+	forwardingtypes "github.com/noble-assets/orbiter/v2/types/controller/forwarding"
 	"math/big"
 	"os"
 	"os/exec"
@@ -85,7 +88,21 @@ func World(prop string, r *rng.R, n int) Result {
 		res.Failures = append(res.Failures, fails...)
 	}
 	res.Notes["operation_outcomes"] = stats
+	if prop == "C02" {
+		res.Failures = append(res.Failures, syntheticTokenProbe(wr)...)
+	}
 	if prop == "C10" {
+		// a keeper cannot be built without an authority, or with one that is not an address: were it, no signer
+		// would denote "the configured authority" and the empty (or that malformed) signer would pass every check
+		for _, a := range []string{"", " ", "noble1invalid", "cosmos1hsk6jryyqjfhp5dhc55tc9jtckygx0eph6dd02"} {
+			if ok, require := world.KeeperWithoutAuthority(wr.w.S, a); ok {
+				what := fmt.Sprintf("a keeper is constructed with the authority %q, which is not an address of the chain", a)
+				if require != nil && require(a) == nil {
+					what += fmt.Sprintf("; a message signed by %q then passes the authority check of every handler", a)
+				}
+				res.Failures = append(res.Failures, Failure{What: what, Sig: "unauthorized-accepted", Prop: "C10", Case: map[string]any{"authority": a}})
+			}
+		}
 		fs, found := unknownRPCs(wr)
 		res.Failures = append(res.Failures, fs...)
 		res.Notes["msg_rpcs_without_a_generator"] = found
@@ -252,6 +269,23 @@ func (wr *worldRunner) runCase(prop string, p profile, r *rng.R, stats map[strin
 					pkt, info = g.genPacket()
 				}
 				info.shape += "/after-a-send-to-the-dust-collector"
+				if info.spec != nil {
+					// ... and, before it, the same packet with a fee for the dust collector's address (refused: a fee
+					// cannot be paid to the orbiter's own accounts; paid by the keeper's SendCoins it would create a
+					// plain account there)
+					first := *info.spec
+					first.fees = [][]feeEntry{{{recipient: sim.DustAddr().String(), kind: "amount", amount: "1"}}}
+					p0 := pkt
+					ics0 := *pkt.ICS
+					if _, memo, ok := first.build(wr.cdc); ok {
+						ics0.Memo = memo
+						p0.ICS = &ics0
+						i0 := info
+						i0.spec, i0.expectOK = &first, false
+						i0.shape = "valid/fee-to-the-dust-collector"
+						ops = append(ops, planned{op: world.Op{Kind: "recv", Pkt: p0, Twin: prop == "C11"}, info: i0})
+					}
+				}
 			}
 			if swept {
 				kind := cleanRoutes[sweep%3]
@@ -434,7 +468,11 @@ func (wr *worldRunner) runCase(prop string, p profile, r *rng.R, stats map[strin
 			}
 		}
 	}
-	if (prop == "C12" || prop == "C02" || prop == "C03" || prop == "mix") && r.Chance(8) {
+	if (prop == "C12" || prop == "mix") && r.Chance(5) {
+		// a chain that has used more routes than one page of a listing holds
+		wr.manyRoutes(ctx, r)
+	}
+	if (prop == "C12" || prop == "C02" || prop == "C03" || prop == "C01" || prop == "mix") && r.Chance(8) {
 		// a chain that has already moved almost everything a 256-bit total can hold over some routes
 		wr.nearFullStats(ctx, r)
 	}
@@ -457,6 +495,15 @@ func (wr *worldRunner) runCase(prop string, p profile, r *rng.R, stats map[strin
 			b, i := collectStrings(payload, pl.op.Pkt.ICS)
 			strsB, strsI = append(strsB, b...), append(strsI, i...)
 		}
+		if prop == "C06" && pl.op.Kind == "recv" && pl.info.spec != nil && pl.info.spec.swap && pl.op.Pkt.ICS != nil {
+			// "any set of registered controllers" includes the chain's own: the application as wired has the fee controller
+			// only, so a payload listing the swap action is refused there - it must not be executed with that action left out
+			sctx, _ := ctx.CacheContext()
+			if t := wr.w.Transcript(sctx, pl.op); strings.HasPrefix(t, "recv ack ") && strings.HasSuffix(strings.SplitN(t, "\n", 2)[0], "success=true") {
+				fails = append(fails, Failure{What: "the application as wired (fee controller only) executes a payload that lists ACTION_SWAP: the listed action is not applied, the transfer goes through without it",
+					Sig: "listed-action-not-applied", Prop: "C06", Case: map[string]any{"op": describeOp(pl.op, pl.info, world.OpObs{})}})
+			}
+		}
 		obs := wr.w.RunOp(ctx, pl.op)
 		opTerms = append(opTerms, world.OpCoq(obs, memoTerm))
 		outs = append(outs, applyMask(p.mask, obs.V()))
@@ -477,6 +524,19 @@ func (wr *worldRunner) runCase(prop string, p profile, r *rng.R, stats map[strin
 			// C19 histories carry mutated memos the generator's description of the payload no longer fits;
 			// the other properties' oracles run in their own families
 			fails = append(fails, orc.check(pl.op, pl.info, obs)...)
+		}
+	}
+	if prop == "C12" || prop == "mix" {
+		// the exported genesis carries the statistics the store holds, all of them
+		gen := wr.w.S.App.OrbiterKeeper.ExportGenesis(ctx)
+		st := wr.w.ObserveState(ctx)
+		na, nc := 0, 0
+		if gen != nil && gen.DispatcherGenesis != nil {
+			na, nc = len(gen.DispatcherGenesis.DispatchedAmounts), len(gen.DispatcherGenesis.DispatchedCounts)
+		}
+		if na != len(st.Amounts) || nc != len(st.Counts) {
+			fails = append(fails, Failure{What: fmt.Sprintf("the exported genesis carries %d amount entries and %d counts, the store holds %d and %d", na, nc, len(st.Amounts), len(st.Counts)),
+				Sig: "export-drops-statistics", Prop: "C12", Case: map[string]any{}})
 		}
 	}
 	transcript := ""
@@ -698,7 +758,7 @@ var sigProp = map[string]string{
 	"mismatched-route-accepted": "C05", "bridge-request": "C05", "replace-request": "C05",
 	"unauthorized-accepted": "C10", "unauthorized-changed-state": "C10", "refused-msg-changed-state": "C10", "authority-refused": "C10",
 	"valid-pause-refused": "C08", "valid-action-pause-refused": "C09", "paused-destination-forwarded": "C08", "unpaused-destination-refused": "C08", "pause-sets": "C08", "pause-query": "C08",
-	"paused-action-executed": "C09", "unpaused-action-refused": "C09", "action-set": "C09", "action-query": "C09",
+	"paused-action-executed": "C09", "paused-action-not-refused": "C09", "unpaused-action-refused": "C09", "action-set": "C09", "action-query": "C09",
 	"stats-fold": "C12", "stats-changed-by-non-transfer": "C12",
 	"passthrough-over-limit-accepted": "C18", "passthrough-within-limit-refused": "C18", "limit-not-in-force": "C18", "passthrough-checked-late": "C18",
 	"dust-collector-not-blocked": "C11", "prior-balance-changes-outcome": "C11", "prior-balance-not-swept": "C11", "prior-balance-other-denom-moved": "C11",
@@ -762,6 +822,29 @@ func (o *oracle) check0(op world.Op, info pktInfo, obs world.OpObs) []Failure {
 		}
 		if obs.Recv.Class == world.ClassPanic {
 			fs = append(fs, o.fail("recv-panic", "the receive path panics: "+obs.Recv.Panic, desc))
+			if info.spec != nil && orbFlow {
+				// C09: a payload naming a paused action is refused with an error acknowledgement - not by aborting the transaction
+				named := map[string]bool{}
+				if len(info.spec.fees) > 0 {
+					named["ACTION_FEE"] = true
+				}
+				if info.spec.swap {
+					named["ACTION_SWAP"] = true
+				}
+				for _, x := range info.spec.extra {
+					if x.id == int32(core.ACTION_SWAP) {
+						named["ACTION_SWAP"] = true
+					}
+					if x.id == int32(core.ACTION_FEE) {
+						named["ACTION_FEE"] = true
+					}
+				}
+				for a := range named {
+					if o.pausedAct[a] {
+						fs = append(fs, o.fail("paused-action-not-refused", "a payload containing the paused action "+a+" is not refused with an error acknowledgement: the receive path panics ("+obs.Recv.Panic+")", desc))
+					}
+				}
+			}
 			// a panic that an emptied orbiter account avoids is also C11's: coins sent to the account block the transfer
 			fs = append(fs, o.checkPrior(op, info, obs, desc)...)
 			return fs
@@ -1253,7 +1336,11 @@ func (o *oracle) checkState(op world.Op, info pktInfo, obs world.OpObs, desc str
 				add(info.denom, info.amount, new(big.Int))
 				add(finalDenom, new(big.Int), out)
 			}
-			o.counts["1|"+op.Pkt.DstChan+"|"+proto+"|"+cp]++
+			if ck := "1|" + op.Pkt.DstChan + "|" + proto + "|" + cp; o.counts[ck] == ^uint64(0) {
+				o.statsUnknown = true // a counter at the end of its range stays where it is
+			} else {
+				o.counts[ck]++
+			}
 		} else if out != nil {
 			o.statsUnknown = true
 		}
@@ -1721,7 +1808,80 @@ func (wr *worldRunner) nearFullStats(ctx sdk.Context, r *rng.R) {
 		if r.Chance(40) {
 			out = big.NewInt(int64(r.Intn(1000)))
 		}
-		_ = d.SetDispatchedAmount(ctx, src, dst, rng.Pick(r, wr.w.Denoms),
-			dispatchertypes.AmountDispatched{Incoming: math.NewIntFromBigInt(in), Outgoing: math.NewIntFromBigInt(out)})
+		if r.Chance(60) {
+			_ = d.SetDispatchedAmount(ctx, src, dst, rng.Pick(r, wr.w.Denoms),
+				dispatchertypes.AmountDispatched{Incoming: math.NewIntFromBigInt(in), Outgoing: math.NewIntFromBigInt(out)})
+		}
+		if r.Chance(50) {
+			// ... or the route's counter is at the end of its 64 bits
+			_ = d.SetDispatchedCounts(ctx, src, dst, ^uint64(0)-uint64(r.Intn(2)))
+		}
 	}
+}
+
+// manyRoutes records statistics for more routes than one page of a listing holds (100).
+func (wr *worldRunner) manyRoutes(ctx sdk.Context, r *rng.R) {
+	d := wr.w.S.App.OrbiterKeeper.Dispatcher()
+	n := 101 + r.Intn(40)
+	src := &core.CrossChainID{ProtocolId: core.PROTOCOL_IBC, CounterpartyId: rng.Pick(r, dstChans)}
+	for k := 0; k < n; k++ {
+		dst := &core.CrossChainID{ProtocolId: rng.Pick(r, []core.ProtocolID{core.PROTOCOL_CCTP, core.PROTOCOL_HYPERLANE}), CounterpartyId: fmt.Sprint(1000 + k)}
+		_ = d.SetDispatchedAmount(ctx, src, dst, sim.USDC, dispatchertypes.AmountDispatched{Incoming: math.NewInt(int64(k + 2)), Outgoing: math.NewInt(int64(k + 1))})
+		_ = d.SetDispatchedCounts(ctx, src, dst, uint64(k+1))
+	}
+}
+
+// syntheticTokenProbe: "locked as Hyperlane collateral ... total supply changes only by the CCTP burn" rests on the
+// chain allowing collateral Warp tokens only (a synthetic token's coins are BURNED by a remote transfer). The probe asks
+// the chain for a synthetic token; when the chain creates it, it sends that token's coins out and back through the
+// orbiter with a Hyperlane forwarding and looks at the supply.
+func syntheticTokenProbe(wr *worldRunner) []Failure {
+	s := wr.w.S
+	ctx := wr.caseCtx()
+	run := func(msg sdk.Msg) (*sdk.Result, error) {
+		cctx, write := ctx.CacheContext()
+		r, err := s.App.MsgServiceRouter().Handler(msg)(cctx, msg)
+		if err == nil {
+			write()
+		}
+		return r, err
+	}
+	r, err := run(&warptypes.MsgCreateSyntheticToken{Owner: sim.Authority, OriginMailbox: s.Mailbox})
+	if err != nil {
+		return nil // the chain has no synthetic tokens: nothing to probe
+	}
+	var resp warptypes.MsgCreateSyntheticTokenResponse
+	if len(r.MsgResponses) != 1 || proto.Unmarshal(r.MsgResponses[0].Value, &resp) != nil {
+		return nil
+	}
+	denom := "hyperlane/" + resp.Id.String()
+	if _, err := run(&warptypes.MsgEnrollRemoteRouter{Owner: sim.Authority, TokenId: resp.Id, RemoteRouter: &warptypes.RemoteRouter{
+		ReceiverDomain: sim.HypRemoteDomain, ReceiverContract: "0x00000000000000000000000000000000000000000000000000000000000000aa", Gas: math.NewInt(sim.HypRouterGas)}}); err != nil {
+		return nil
+	}
+	amt := math.NewInt(1_000_000)
+	if err := wr.w.FundEscrow(ctx, dstPort, "channel-0", sdk.NewCoin(denom, amt)); err != nil {
+		return nil
+	}
+	attrs := &forwardingtypes.HypAttributes{TokenId: resp.Id.Bytes(), DestinationDomain: sim.HypRemoteDomain, Recipient: make([]byte, 32), GasLimit: math.ZeroInt(),
+		MaxFee: sdk.Coin{Denom: "", Amount: math.ZeroInt()}}
+	f := &core.Forwarding{ProtocolId: core.PROTOCOL_HYPERLANE}
+	if err := f.SetAttributes(attrs); err != nil {
+		return nil
+	}
+	memo, err := wr.cdc.MarshalJSON(&core.PayloadWrapper{Orbiter: &core.Payload{Forwarding: f}})
+	if err != nil {
+		return nil
+	}
+	pkt := world.Packet{SrcPort: srcPort, SrcChan: srcChan, DstPort: dstPort, DstChan: "channel-0",
+		ICS: &world.ICS20{Denom: srcPort + "/" + srcChan + "/" + denom, Amount: amt.String(), Sender: sim.Authority, Receiver: sim.OrbiterAddr().String(), Memo: string(memo)}}
+	before := s.App.BankKeeper.GetSupply(ctx, denom).Amount
+	o := wr.w.RunOp(ctx, world.Op{Kind: "recv", Pkt: pkt})
+	after := s.App.BankKeeper.GetSupply(ctx, denom).Amount
+	if o.Recv.Success && !after.Equal(before) {
+		return []Failure{{What: fmt.Sprintf("the chain creates a synthetic Warp token (%s); its coins, returning over IBC to the orbiter with a Hyperlane forwarding, are burned by the route instead of being locked as collateral: "+
+			"success acknowledgement and the total supply of %s goes from %s to %s with no CCTP burn involved", resp.Id.String(), denom, before, after),
+			Sig: "supply-delta", Prop: "C02", Case: map[string]any{"op": describeOp(world.Op{Kind: "recv", Pkt: pkt}, pktInfo{}, o)}}}
+	}
+	return nil
 }
